@@ -900,8 +900,12 @@ bool unitsDependOn(const ModelPtr &model, const std::string &name, const std::st
     return false;
 }
 
-void retrieveUnitsDependencies(const ModelPtr &flatModel, const ModelPtr &model, const UnitsPtr &u, const ComponentPtr &component)
+StringStringMap retrieveUnitsDependencies(const ModelPtr &flatModel, const ModelPtr &model, const UnitsPtr &u, const ComponentPtr &component, bool rewriteReferences = true)
 {
+    // Brings the units that 'u' (units of 'model') depends on into the flat model and returns what each of them is called
+    // there. The references of 'u' are names of 'model' until they are rewritten: every units is therefore completed, child
+    // by child, before it is transferred itself, and no rewritten reference is ever looked up in 'model' again.
+    StringStringMap namesInFlatModel;
     for (size_t unitIndex = 0; unitIndex < u->unitCount(); ++unitIndex) {
         std::string reference = u->unitAttributeReference(unitIndex);
         if (!reference.empty() && !isStandardUnitName(reference) && model->hasUnits(reference)) {
@@ -916,27 +920,33 @@ void retrieveUnitsDependencies(const ModelPtr &flatModel, const ModelPtr &model,
                 flattenUnitsImports(model, childUnits, childUnitsIndex, component);
                 childUnits = model->units(childUnitsIndex);
             }
-            {
-                auto childChangedNames = transferUnitsRenamingIfRequired(model, flatModel, childUnits, component);
-                auto childChange = childChangedNames.find(reference);
-                if ((childChange != childChangedNames.end()) && (childChange->second != childUnits->name())) {
-                    // Equal units already exist in the flat model under another name: refer to those, unless they are, or are
-                    // defined by, the very units whose dependencies are being retrieved (units equal to the units they are
-                    // defined by: the reference would close a cycle).
-                    NameList visited;
-                    if (!unitsDependOn(flatModel, childChange->second, u->name(), visited)) {
-                        u->setUnitAttributeReference(unitIndex, childChange->second);
-                    } else if (!flatModel->hasUnits(childUnits->name())) {
-                        flatModel->addUnits(childUnits);
-                        retrieveUnitsDependencies(flatModel, model, childUnits, component);
-                    }
-                } else {
-                    u->setUnitAttributeReference(unitIndex, childUnits->name());
-                    retrieveUnitsDependencies(flatModel, model, childUnits, component);
+            StringStringMap childNamesInFlatModel;
+            if (modelsEquivalentUnits(flatModel, childUnits) == nullptr) {
+                childNamesInFlatModel = retrieveUnitsDependencies(flatModel, model, childUnits, component, false);
+            }
+            auto childChangedNames = transferUnitsRenamingIfRequired(model, flatModel, childUnits, component, childNamesInFlatModel);
+            std::string nameInFlatModel = childUnits->name();
+            auto childChange = childChangedNames.find(reference);
+            if ((childChange != childChangedNames.end()) && (childChange->second != childUnits->name())) {
+                // Equal units already exist in the flat model under another name: refer to those, unless they are, or are
+                // defined by, the very units whose dependencies are being retrieved (units equal to the units they are
+                // defined by: the reference would close a cycle).
+                NameList visited;
+                if (!unitsDependOn(flatModel, childChange->second, u->name(), visited)) {
+                    nameInFlatModel = childChange->second;
+                } else if (!flatModel->hasUnits(childUnits->name())) {
+                    childNamesInFlatModel = retrieveUnitsDependencies(flatModel, model, childUnits, component, true);
+                    flatModel->addUnits(childUnits);
                 }
+            }
+            namesInFlatModel.emplace(reference, nameInFlatModel);
+            if (rewriteReferences) {
+                u->setUnitAttributeReference(unitIndex, nameInFlatModel);
             }
         }
     }
+
+    return namesInFlatModel;
 }
 
 void flattenUnitsImports(const ModelPtr &flatModel, const UnitsPtr &units, size_t index, const ComponentPtr &component)
